@@ -3,11 +3,13 @@ use crate::util::Rng;
 use serde_json::Value;
 
 pub const LIB_NAME: &str = "m2";
-pub const LIB_TEXT: &str = "pub fn a(x) { x }\npub fn c() { 1 }\nfn p() { 2 }\npub type A { A(a: Int) C }\npub const k = 1\npub type T { W }\ntype P { Q }\n";
+pub const LIB_TEXT: &str = "pub fn a(x) { x }\npub fn c() { 1 }\nfn p() { 2 }\npub type A { A(a: Int) C }\npub const k = 1\npub type T { W }\ntype P { Q }\npub type R { R(f: Int) }\n";
 /// The second library module: its path shares the last segment with the first, it declares the same names (ids 3001..)
 /// in another order, and it uses them itself in the extra function `s` (so a rename has to edit uses inside the library too).
 pub const SUB_NAME: &str = "sub/m2";
-pub const SUB_TEXT: &str = "pub const k = 2\npub type T { W }\npub fn c() { 3 }\ntype P { Q }\npub type A { C A(a: Int) }\nfn p() { 4 }\npub fn a(x) { x }\npub fn s(y: A) -> T { let _ = #(c(), a(k), A(a: 1), C, y) W }\n";
+/// It also imports the first one and hands out a value of ITS record type (`mk`): a module that imports only `sub/m2` can then
+/// hold a record whose type and field `f` are declared in a module it does not import.
+pub const SUB_TEXT: &str = "import m2\npub const k = 2\npub type R { R(f: Int) }\npub type T { W }\npub fn c() { 3 }\ntype P { Q }\npub type A { C A(a: Int) }\nfn p() { 4 }\npub fn a(x) { x }\npub fn s(y: A) -> T { let _ = #(c(), a(k), A(a: 1), C, y, R(f: 2)) W }\npub fn mk() -> m2.R { m2.R(f: 1) }\n";
 
 /// The library modules of a GleamGen workspace: (module path, text, id of the module in the specification); the module with
 /// index i is FileId(1 + i).
@@ -22,7 +24,7 @@ pub fn lib_of(id: u64) -> usize {
 pub fn lib_decls_of(lib: usize) -> Vec<(u64, usize, usize)> {
     let (_, text, base) = LIBS[lib];
     let f = |pat: &str, skip: usize| text.find(pat).unwrap() + skip;
-    vec![
+    let mut v = vec![
         (base + 1, f("fn a(", 3), 1),
         (base + 2, f("fn c(", 3), 1),
         (base + 3, f("A(a: Int)", 0), 1),
@@ -31,7 +33,14 @@ pub fn lib_decls_of(lib: usize) -> Vec<(u64, usize, usize)> {
         (base + 6, f("type T {", 5), 1),
         (base + 7, f("type A {", 5), 1),
         (base + 8, f("A(a: Int)", 2), 1),
-    ]
+        (base + 9, f("R(f: Int)", 0), 1),
+        (base + 10, f("type R {", 5), 1),
+        (base + 11, f("R(f: Int)", 2), 1),
+    ];
+    if lib == 1 {
+        v.push((base + 12, f("fn mk(", 3), 2));
+    }
+    v
 }
 
 /// the first library module's declarations (ids 2001..)
@@ -39,13 +48,15 @@ pub fn lib_decls() -> Vec<(u64, usize, usize)> {
     lib_decls_of(0)
 }
 
-/// (declaration id, byte offset) of every USE of a library declaration inside the library's own text
+/// (declaration id, byte offset) of every USE of a library declaration - of either module - inside the text of library `lib`
 pub fn lib_uses_of(lib: usize) -> Vec<(u64, usize)> {
     if lib != 1 {
         return vec![];
     }
     let body = SUB_TEXT.find("pub fn s(").unwrap();
     let f = |pat: &str, skip: usize| body + SUB_TEXT[body..].find(pat).unwrap() + skip;
+    let mk = SUB_TEXT.find("pub fn mk(").unwrap();
+    let g = |pat: &str, skip: usize| mk + SUB_TEXT[mk..].find(pat).unwrap() + skip;
     vec![
         (3001, f("a(k)", 0)),
         (3002, f("c()", 0)),
@@ -55,6 +66,12 @@ pub fn lib_uses_of(lib: usize) -> Vec<(u64, usize)> {
         (3006, f("-> T", 3)),
         (3007, f("y: A", 3)),
         (3008, f("A(a: 1)", 2)),
+        (3009, f("R(f: 2)", 0)),
+        (3011, f("R(f: 2)", 2)),
+        // the first module's record R, used by `mk`
+        (2010, g("-> m2.R", 6)),
+        (2009, g("m2.R(f: 1)", 3)),
+        (2011, g("m2.R(f: 1)", 5)),
     ]
 }
 
